@@ -110,6 +110,10 @@ GROUPS = [['$.li[0]', '$.li[1]', '$.li[2]', '$.li[3]'], ['$.ls[0]', '$.ls[1]', '
           ['$.rl[0]', '$.rl[1]', '$.rl[2]', '$.rl[3]'], ['$.ss[0]', '$.ss[2]', '$.ss[3]'], ['$.im{1}', '$.im{3}', '$.im{4}']]
 
 
+# write history for the "same object written twice" scenarios: masks that leave sub-masks on nested values
+PRE = [['$.n.x'], ['$.ls[0].x', '$.o.x'], ['$.rin.x', '$.sm{"k2"}.x', '$.lm{1}.x'], ['$.ll[1][0]', '$.lsm[0]{"k1"}']]
+
+
 def run(ctx, args):
     thorough = ctx.tier == "thorough"
     prog = program()
@@ -182,9 +186,16 @@ def run(ctx, args):
             meta.append((cid, zero, k, "w"))
             scen.append({"id": len(scen), "op": "mr", "case": cid, "s": "MRoot", "toks": c["full"], "x": x})
             meta.append((cid, zero, k, "r"))
+            if len(c["ms"]) <= 1 and cid != "m1":     # the same object, written before under masks that reach into nested
+                # structs (not under field_mask_halfway, where sub-masks set on nested values are kept by design)
+                scen.append({"id": len(scen), "op": "mw", "case": cid, "s": "MRoot", "v": c["v"], "x": dict(x, pre=PRE)})
+                meta.append((cid, zero, k, "w"))
         for v in tsc["values"]:   # nil mask == code generated without the option
             scen.append({"id": len(scen), "op": "mw", "case": cid, "s": "MRoot", "v": v, "x": {"mode": "none"}})
             meta.append((cid, zero, v, "w0"))
+            if cid != "m1":
+                scen.append({"id": len(scen), "op": "mw", "case": cid, "s": "MRoot", "v": v, "x": {"mode": "none", "pre": PRE}})
+                meta.append((cid, zero, v, "w0"))
     for v in tsc["values"]:
         scen.append({"id": len(scen), "op": "w", "case": "plain", "s": "MRoot", "v": v})
         meta.append(("plain", False, v, "w0"))
